@@ -138,8 +138,8 @@ int main(int argc, char **argv) {
         }
     }
     /* ---- long runs of rejected draws: the sampler has no retry limit - the result is the first accepted draw however late it comes */
-    { static const uint32_t NS[3] = { 3, 0x80000001u, 10 }; static const long RUNS[6] = { 1023, 1024, 1025, 2500, 65536, 100000 };
-      for (int a = 0; a < 3; a++) for (int b = 0; b < (nuni >= 200 ? 6 : 4); b++) {
+    { static const uint32_t NS[3] = { 3, 0x80000001u, 10 }; static const long RUNS[5] = { 1023, 1024, 1025, 2500, 20000 };
+      for (int a = 0; a < 3; a++) for (int b = 0; b < (nuni >= 200 ? 5 : 4); b++) {
           uint32_t n = NS[a], min = (uint32_t) (0x100000000ULL % n), ds[2] = { min + 7, 0xffffffffu }; if (!min) continue;
           rej_val = min - 1; rej_run = RUNS[b]; uniform_case(n, ds, 2); rej_run = 0; } }
     /* ---- every generating API, three scripts each; run twice with the same script, once with another */
